@@ -21,7 +21,14 @@ import (
 	"golang.org/x/tools/go/ssa/ssautil"
 )
 
-const repoRoot = "/repo"
+// the tree under verification: always /repo for the registered checks; GOSYM_REPO points the seed-regression
+// tooling at a scratch worktree (tools/seed_check_wt.sh) so that several seeded changes can be checked at once
+var repoRoot = func() string {
+	if r := os.Getenv("GOSYM_REPO"); r != "" {
+		return r
+	}
+	return "/repo"
+}()
 const modPath = "git.metabarcoding.org/obitools/obitools4/obitools4"
 
 var verifRoot = "/verif"
